@@ -1,11 +1,851 @@
-use vcommon::*;
+//! mon-txpool: runtime monitors for the transaction pool properties C16-C21.
+//!
+//! One synchronous driver (hook H1, `fuel_core_txpool::verif_hooks::VerifPool`)
+//! wraps the REAL pool worker. Histories of operations (insert, extraction, block
+//! import, preconfirmations, TTL expiry, pending-pool expiry) are generated over
+//! small alphabets; after every operation the pool is snapshotted through its read
+//! accessors and the oracle of the selected property judges the step.
+
+mod c16;
+mod c17;
+mod c18;
+mod c19;
+mod c20;
+mod c21;
+mod hist;
+mod model;
+mod snap;
+mod txgen;
+mod world;
+
+use hist::{
+    Hist,
+    Ran,
+};
+use model::*;
+use snap::{
+    Graph,
+    TxInfo,
+};
+use std::{
+    collections::BTreeMap,
+    sync::Arc,
+};
+use vcommon::{
+    rand::{
+        Rng,
+        rngs::StdRng,
+        seq::SliceRandom,
+    },
+    serde_json::json,
+    *,
+};
+use world::SinkEvent;
+
+fn focus_of(p: &str) -> Option<Focus> {
+    Some(match p {
+        "C16" => Focus::C16,
+        "C17" => Focus::C17,
+        "C18" => Focus::C18,
+        "C19" => Focus::C19,
+        "C20" => Focus::C20,
+        "C21" => Focus::C21,
+        _ => return None,
+    })
+}
+
+/// structural key of a step (what makes two judged cases "the same shape")
+fn shape(step: &Step) -> u64 {
+    let g = Graph::of(&step.before);
+    let mut pool: Vec<(&'static str, u64, u64, usize, usize)> = step
+        .before
+        .txs
+        .values()
+        .map(|t| {
+            (
+                t.kind,
+                t.tip,
+                t.max_gas,
+                g.parents.get(&t.id).map(|p| p.len()).unwrap_or(0),
+                g.children.get(&t.id).map(|p| p.len()).unwrap_or(0),
+            )
+        })
+        .collect();
+    pool.sort();
+    let opd = match &step.op {
+        Op::Insert { info, .. } => format!(
+            "i{}{}{}{}{}{:?}",
+            info.kind,
+            info.tip,
+            info.max_gas,
+            info.coins.len(),
+            info.outputs.len(),
+            step.insert.as_ref().map(|o| o.is_inserted())
+        ),
+        Op::Extract {
+            min_price,
+            max_gas,
+            max_txs,
+            max_size,
+            excluded,
+        } => format!(
+            "e{min_price}{max_gas}{max_txs}{max_size}{}:{:?}",
+            excluded.len(),
+            step.extracted
+                .iter()
+                .map(|t| (t.tip, t.max_gas))
+                .collect::<Vec<_>>()
+        ),
+        Op::Block { txs, .. } => format!("b{}", txs.len()),
+        Op::Preconf {
+            kind,
+            stale,
+            outputs,
+            ..
+        } => format!("p{kind:?}{stale}{}", outputs.is_some()),
+        Op::Expire { ids } => format!("x{}", ids.len()),
+        Op::ExpirePending => "xp".into(),
+    };
+    hash64(&(
+        pool,
+        opd,
+        step.after.txs.len(),
+        step.followups.len(),
+        step.sink.len(),
+    ))
+}
+
+/// Harness-side perturbation of what the oracle gets to see (oracle self-test).
+/// Returns true when the observation was actually corrupted.
+fn perturb(step: &mut Step, focus: Focus, n: u32, rng: &mut StdRng) -> bool {
+    match (focus, n) {
+        (Focus::C16, 1) => {
+            // the observed pool content loses one transaction
+            let Some(id) = step.after.txs.keys().next().copied() else {
+                return false;
+            };
+            step.after.txs.remove(&id);
+            true
+        }
+        (Focus::C16, _) => {
+            // a second transaction with the same inputs shows up (stats adjusted)
+            let Some(t) = step.after.txs.values().next().cloned() else {
+                return false;
+            };
+            let mut fake = TxInfo::clone(&t);
+            fake.id = txgen::test_tx_id(0xFFFF_0000 + rng.gen_range(0..1000));
+            for s in [&mut step.after.published, &mut step.after.accounting] {
+                s.count += 1;
+                s.gas += fake.max_gas;
+                s.size += fake.size as u64;
+            }
+            step.after.txs.insert(fake.id, Arc::new(fake));
+            true
+        }
+        (Focus::C17, 1) => {
+            // swap a parent with its child in the extraction result
+            let g = Graph::of(&step.before);
+            for i in 0..step.extracted.len() {
+                for j in i + 1..step.extracted.len() {
+                    if g.parents
+                        .get(&step.extracted[j].id)
+                        .is_some_and(|p| p.contains(&step.extracted[i].id))
+                    {
+                        step.extracted.swap(i, j);
+                        return true;
+                    }
+                }
+            }
+            false
+        }
+        (Focus::C17, _) => {
+            // a dependent of a removed transaction "survives"
+            let g = Graph::of(&step.before);
+            let incl = step.inclusion_exits();
+            for x in step.before.txs.keys() {
+                if step.after.contains(x) || incl.contains(x) {
+                    continue;
+                }
+                if let Some(d) = g.descendants(x).into_iter().next() {
+                    let info = step.before.txs[&d].clone();
+                    step.after.txs.insert(d, info);
+                    return true;
+                }
+            }
+            false
+        }
+        (Focus::C18, 1) => {
+            // the oracle is told a stricter gas limit than the pool got
+            if step.extracted.is_empty() {
+                return false;
+            }
+            let sum: u64 = step.extracted.iter().map(|t| t.max_gas).sum();
+            if let Op::Extract { max_gas, .. } = &mut step.op {
+                *max_gas = sum - 1;
+                return true;
+            }
+            false
+        }
+        (Focus::C18, 2) => {
+            // the extraction result is observed in reverse order
+            if step.extracted.len() < 2 {
+                return false;
+            }
+            let f = &step.extracted[0];
+            let l = &step.extracted[step.extracted.len() - 1];
+            if (f.tip + 1) as u128 * l.max_gas as u128 == (l.tip + 1) as u128 * f.max_gas as u128 {
+                return false;
+            }
+            step.extracted.reverse();
+            true
+        }
+        (Focus::C18, _) => {
+            // an extracted transaction is still observed in the pool
+            let Some(t) = step.extracted.first().cloned() else {
+                return false;
+            };
+            step.after.txs.insert(t.id, t);
+            true
+        }
+        (Focus::C19, 1) => {
+            // a wrapper that reports a rejection as success
+            if let Some(Outcome::Rejected(e)) = &step.insert {
+                let interesting = e.is_duplicate_tx()
+                    || matches!(
+                        e,
+                        fuel_core_txpool::error::Error::UtxoInputWasAlreadySpent(_)
+                            | fuel_core_txpool::error::Error::Collided(_)
+                            | fuel_core_txpool::error::Error::InputValidation(_)
+                    );
+                if interesting {
+                    step.insert = Some(Outcome::Inserted);
+                    return true;
+                }
+            }
+            false
+        }
+        (Focus::C19, 2) => {
+            // the oracle's chain lacks a coin the admitted transaction spends
+            if let (Op::Insert { info, .. }, Some(Outcome::Inserted)) = (&step.op, &step.insert) {
+                for (u, _) in &info.coins {
+                    if step.chain.coins.remove(u).is_some() {
+                        return true;
+                    }
+                }
+            }
+            false
+        }
+        (Focus::C19, _) => {
+            // a wrapper that reports success as a rejection
+            if let Some(Outcome::Inserted) = &step.insert {
+                step.insert = Some(Outcome::Rejected(
+                    fuel_core_txpool::error::Error::NotInsertedLimitHit,
+                ));
+                return true;
+            }
+            false
+        }
+        (Focus::C20, 1) => {
+            // a committed transaction is still observed in the pool
+            if let Op::Block { txs, .. } = &step.op
+                && let Some(t) = txs.first().cloned()
+            {
+                step.after.txs.insert(t.id, t);
+                return true;
+            }
+            false
+        }
+        (Focus::C20, _) => {
+            // the oracle is told a current preconfirmation was stale
+            if let Op::Preconf {
+                stale,
+                kind: PKind::Success | PKind::Failure,
+                id,
+                ..
+            } = &mut step.op
+                && !*stale
+                && step.before.txs.contains_key(id)
+            {
+                *stale = true;
+                return true;
+            }
+            false
+        }
+        (Focus::C21, 1) => {
+            // one squeezed-out report is lost on the way to the checker
+            if let Some(i) = step
+                .sink
+                .iter()
+                .position(|e| matches!(e, SinkEvent::SqueezedOut(..)))
+            {
+                step.sink.remove(i);
+                return true;
+            }
+            false
+        }
+        (Focus::C21, 2) => {
+            // one squeezed-out report is delivered twice
+            if let Some(e) = step
+                .sink
+                .iter()
+                .find(|e| matches!(e, SinkEvent::SqueezedOut(..)))
+                .cloned()
+            {
+                step.sink.push(e);
+                return true;
+            }
+            false
+        }
+        (Focus::C21, _) => {
+            // an extracted transaction is reported squeezed out
+            if let Some(t) = step.extracted.choose(rng) {
+                step.sink
+                    .push(SinkEvent::SqueezedOut(t.id, "selftest".to_string()));
+                return true;
+            }
+            false
+        }
+    }
+}
+
+fn err_class(e: &fuel_core_txpool::error::Error) -> String {
+    let s = format!("{e:?}");
+    let mut parts = s.split('(');
+    let a: String = parts
+        .next()
+        .unwrap_or("")
+        .chars()
+        .take_while(|c| c.is_alphanumeric())
+        .collect();
+    if matches!(
+        a.as_str(),
+        "InputValidation" | "Collided" | "Dependency" | "Blacklisted"
+    ) {
+        let b: String = parts
+            .next()
+            .unwrap_or("")
+            .chars()
+            .take_while(|c| c.is_alphanumeric())
+            .collect();
+        format!("{a}.{b}")
+    } else {
+        a
+    }
+}
+
+/// Which property owns a panic inside the pool? The repo's `debug_assert!`s on
+/// the dependency graph / promotion belong to C17, the ones on pool accounting,
+/// collision and selection indexes to C16.
+fn panic_owner(msg: &str) -> Focus {
+    if msg.contains("storage/graph.rs") || msg.to_lowercase().contains("dependent") {
+        Focus::C17
+    } else {
+        Focus::C16
+    }
+}
+
+fn panic_sig(owner: Focus, opk: &str, msg: &str) -> String {
+    let payload = msg.split(" [").next().unwrap_or("");
+    let file = msg
+        .split("panicked at ")
+        .nth(1)
+        .and_then(|s| s.split(':').next())
+        .map(|f| f.rsplit('/').next().unwrap_or("").to_string())
+        .unwrap_or_default();
+    let text: String = payload
+        .chars()
+        .filter(|c| !c.is_ascii_digit())
+        .take(80)
+        .collect();
+    format!(
+        "c{} pool_panic op={opk} at={file} msg={}",
+        if owner == Focus::C16 { 16 } else { 17 },
+        text.trim()
+    )
+}
+
+struct Totals {
+    counters: BTreeMap<String, u64>,
+}
+
+impl Totals {
+    fn add(&mut self, k: &str, n: u64) {
+        *self.counters.entry(k.to_string()).or_insert(0) += n;
+    }
+}
+
+#[allow(clippy::too_many_arguments)]
+fn run_history(
+    report: &Report,
+    args: &Args,
+    focus: Focus,
+    shard: usize,
+    shard_seed: u64,
+    iter: u64,
+    n_ops: usize,
+    selftest: Option<u32>,
+) {
+    let mut rng = rng_for(shard_seed, &[iter]);
+    let validation_on = match focus {
+        Focus::C19 | Focus::C20 => true,
+        _ => chance(&mut rng, 80),
+    };
+    let cfg = if chance(&mut rng, 60) {
+        hist::tiny_cfg(&mut rng, validation_on)
+    } else {
+        hist::default_cfg(&mut rng, validation_on)
+    };
+    let mut prng = rng_for(shard_seed, &[iter, 7]);
+    let parent_child_blocks = match args.extra.get("parent-child-blocks").map(|s| s.as_str()) {
+        Some("on") => true,
+        Some("off") => false,
+        _ => focus == Focus::C17,
+    };
+    let mut h = Hist::new(cfg.clone(), focus, rng, parent_child_blocks);
+    let mut tot = Totals {
+        counters: BTreeMap::new(),
+    };
+    tot.add(&format!("histories.cfg.{}", cfg.name), 1);
+    tot.add(
+        if cfg.utxo_validation {
+            "histories.utxo_validation_on"
+        } else {
+            "histories.utxo_validation_off"
+        },
+        1,
+    );
+    let pre = if selftest.is_some() { "selftest:" } else { "" };
+    let mut evals = 0u64;
+    let replay = |h: &Hist| {
+        json!({
+            "seed": shard_seed,
+            "shard": shard,
+            "iteration": iter,
+            "property": args.property,
+            "config": format!("{:?}", h.cfg),
+            "ops": h.log,
+        })
+    };
+    for i in 0..n_ops {
+        let op = h.gen_op();
+        if let Op::Insert { why, .. } = &op {
+            tot.add(&format!("insert.category.{why}"), 1);
+        }
+        let step = match h.run(i, op) {
+            Ran::Panic(opk, msg) => {
+                tot.add("panics", 1);
+                match focus {
+                    Focus::C16 | Focus::C17 if panic_owner(&msg) == focus => report.violation(
+                        format!("{pre}{}", panic_sig(focus, &opk, &msg)),
+                        format!("the pool panicked (debug assertions on) in {opk}: {msg}"),
+                        replay(&h),
+                    ),
+                    _ => report.inconclusive(format!(
+                        "pool panicked in {opk} (not judged by {}): {msg}; history seed {shard_seed} iteration {iter}",
+                        args.property
+                    )),
+                }
+                break;
+            }
+            Ran::Step(s) => *s,
+        };
+        tot.add(&format!("ops.{}", step.op.kind()), 1);
+        match &step.insert {
+            Some(Outcome::Inserted) => tot.add("insert.outcome.inserted", 1),
+            Some(Outcome::Pending) => tot.add("insert.outcome.pending", 1),
+            Some(Outcome::Rejected(e)) => {
+                tot.add(&format!("insert.rejected.{}", err_class(e)), 1)
+            }
+            None => {}
+        }
+        for (_, o) in &step.followups {
+            match o {
+                Outcome::Inserted => tot.add("followup.inserted", 1),
+                Outcome::Pending => tot.add("followup.pending", 1),
+                Outcome::Rejected(_) => tot.add("followup.rejected", 1),
+            }
+        }
+        if let Op::Extract { .. } = &step.op {
+            tot.add("extract.txs", step.extracted.len() as u64);
+            if step.extracted.len() >= 2 {
+                tot.add("extract.with_2plus_txs", 1);
+            }
+        }
+        for e in &step.sink {
+            match e {
+                SinkEvent::Submitted(_) => tot.add("sink.submitted", 1),
+                SinkEvent::SqueezedOut(..) => tot.add("sink.squeezed_out", 1),
+                SinkEvent::Other(..) => tot.add("sink.other", 1),
+            }
+        }
+        tot.add("pool.size_sum", step.after.txs.len() as u64);
+        if step.after.txs.len() >= cfg.max_txs {
+            tot.add("pool.full_snapshots", 1);
+        }
+        let edges = Graph::of(&step.after).edge_count();
+        if edges > 0 {
+            tot.add("pool.snapshots_with_dependencies", 1);
+        }
+
+        // the oracle may be fed a corrupted observation (self-test only)
+        let mut seen_step = step.clone();
+        let perturbed = match selftest {
+            Some(n) => perturb(&mut seen_step, focus, n, &mut prng),
+            None => false,
+        };
+        if perturbed {
+            tot.add("selftest.perturbations_applied", 1);
+        }
+        let judged = if selftest.is_some() { &seen_step } else { &step };
+
+        // the admission oracle always runs: a C19-class finding taints the rest of
+        // the history for every property (the pool then holds what it must not hold)
+        let mut adm = c19::check_main(judged, &h.model, &h.cfg, &h.seen);
+        let mut findings: Vec<Finding> = Vec::new();
+        let mut nontrivial = false;
+        match focus {
+            Focus::C16 => {
+                findings = c16::check(judged);
+                nontrivial = step.before.ids() != step.after.ids();
+            }
+            Focus::C17 => {
+                findings = c17::check(judged, &h.model, &h.cfg);
+                nontrivial = c17::nontrivial(&step);
+            }
+            Focus::C18 => {
+                findings = c18::check(judged);
+                nontrivial = c18::nontrivial(&step);
+                if let Op::Extract {
+                    max_gas,
+                    max_txs,
+                    max_size,
+                    min_price,
+                    excluded,
+                } = &step.op
+                {
+                    // which constraints were binding (left something executable behind)?
+                    let g = Graph::of(&step.after);
+                    let left: Vec<_> = step
+                        .after
+                        .txs
+                        .values()
+                        .filter(|t| g.parents.get(&t.id).is_none_or(|p| p.is_empty()))
+                        .collect();
+                    let gas: u64 = step.extracted.iter().map(|t| t.max_gas).sum();
+                    let size: u64 = step.extracted.iter().map(|t| t.size as u64).sum();
+                    if left.iter().any(|t| t.max_gas > max_gas.saturating_sub(gas)) {
+                        tot.add("extract.gas_limit_binding", 1);
+                    }
+                    if left
+                        .iter()
+                        .any(|t| t.size as u64 > (*max_size as u64).saturating_sub(size))
+                    {
+                        tot.add("extract.size_limit_binding", 1);
+                    }
+                    if !left.is_empty() && step.extracted.len() == *max_txs as usize {
+                        tot.add("extract.count_limit_binding", 1);
+                    }
+                    if left.iter().any(|t| t.max_gas_price < *min_price) {
+                        tot.add("extract.min_price_binding", 1);
+                    }
+                    if left
+                        .iter()
+                        .any(|t| t.contracts.iter().any(|c| excluded.contains(c)))
+                    {
+                        tot.add("extract.excluded_contract_binding", 1);
+                    }
+                    let gb = Graph::of(&step.before);
+                    if step
+                        .extracted
+                        .iter()
+                        .any(|t| gb.parents.get(&t.id).is_some_and(|p| !p.is_empty()))
+                    {
+                        tot.add("extract.with_dependent_tx", 1);
+                    }
+                }
+            }
+            Focus::C19 => {
+                nontrivial = matches!(step.op, Op::Insert { .. });
+            }
+            Focus::C20 => {
+                findings = c20::check(judged, &h.model, &h.cfg);
+                nontrivial = c20::nontrivial(&step, &h.model);
+                if let Op::Block { height, txs } = &step.op {
+                    if txs.iter().any(|t| step.before.contains(&t.id)) {
+                        tot.add("block.commits_pooled_tx", 1);
+                    }
+                    if txs.iter().any(|t| h.model.unsettled.contains_key(&t.id)) {
+                        tot.add("block.commits_handed_out_tx", 1);
+                    }
+                    for (id, u) in &h.model.unsettled {
+                        if matches!(u.state, UState::Tentative { height: hh } if hh <= *height)
+                        {
+                            if txs.iter().any(|t| &t.id == id) {
+                                tot.add("block.confirms_preconfirmed_tx", 1);
+                            } else {
+                                tot.add("block.rolls_back_preconfirmed_tx", 1);
+                                if step
+                                    .before
+                                    .txs
+                                    .values()
+                                    .any(|t| t.coins.iter().any(|(c, _)| c.tx_id() == id))
+                                {
+                                    tot.add("block.rollback_with_pooled_dependents", 1);
+                                }
+                            }
+                        }
+                    }
+                }
+                if let Op::Insert { info, .. } = &step.op
+                    && h.model.rolled_back.contains(&info.id)
+                {
+                    tot.add(
+                        if matches!(step.insert, Some(Outcome::Inserted)) {
+                            "probe.rolled_back_resubmission.accepted"
+                        } else {
+                            "probe.rolled_back_resubmission.not_accepted"
+                        },
+                        1,
+                    );
+                }
+            }
+            Focus::C21 => {
+                findings = c21::check(judged, &h.model);
+                nontrivial = c21::nontrivial(&step);
+                let incl = step.inclusion_exits();
+                for x in step.before.txs.keys() {
+                    if !step.after.contains(x) {
+                        if incl.contains(x) {
+                            tot.add("exits.inclusion", 1);
+                        } else {
+                            tot.add(&format!("exits.non_inclusion.{}", step.op.kind()), 1);
+                        }
+                    }
+                }
+            }
+        }
+        // probes aimed at reconciliation (counted for every focus)
+        if let Op::Insert { info, why, .. } = &step.op
+            && why.starts_with("spend_")
+        {
+            let _ = info;
+            tot.add(
+                &format!(
+                    "probe.{why}.{}",
+                    if matches!(step.insert, Some(Outcome::Inserted)) {
+                        "accepted"
+                    } else {
+                        "not_accepted"
+                    }
+                ),
+                1,
+            );
+        }
+        if matches!(step.op, Op::Insert { .. })
+            && c19::is_plain_step(&step, &h.model, &h.cfg, &h.seen)
+        {
+            tot.add("insert.plain_case", 1);
+        }
+        if let (Op::Insert { info, .. }, Some(Outcome::Inserted)) = (&step.op, &step.insert) {
+            let collided = step
+                .before
+                .txs
+                .values()
+                .any(|k| snap::conflict(info, k).is_some());
+            if collided {
+                tot.add("insert.admitted_over_collision", 1);
+            }
+            if info.coins.iter().any(|(u, _)| step.before.contains(u.tx_id())) {
+                tot.add("insert.admitted_with_pool_parent", 1);
+            }
+            if info
+                .coins
+                .iter()
+                .any(|(u, _)| h.model.unsettled.contains_key(u.tx_id()))
+            {
+                tot.add("insert.admitted_spending_unsettled_output", 1);
+            }
+            let evicted = step
+                .before
+                .txs
+                .keys()
+                .filter(|x| !step.after.contains(x))
+                .count();
+            if evicted > 0 && !collided {
+                tot.add("insert.admitted_with_space_eviction", 1);
+            }
+        }
+
+        // bring the model up to date with what really happened, then judge follow-ups
+        h.apply(&step);
+        adm.extend(c19::followups(judged, &h.model, &h.cfg));
+
+        evals += 1;
+        if nontrivial {
+            report.distinct_hash(shape(&step));
+            tot.add("steps.nontrivial", 1);
+            if report.wants_sample() && step.before.txs.len() >= 2 {
+                report.sample(json!({
+                    "config": format!("{:?}", h.cfg),
+                    "history_so_far": h.log,
+                }));
+            }
+        }
+        for f in &findings {
+            report.violation(format!("{pre}{}", f.sig), f.detail.clone(), replay(&h));
+        }
+        match focus {
+            Focus::C19 => {
+                for f in &adm {
+                    report.violation(format!("{pre}{}", f.sig19), f.detail.clone(), replay(&h));
+                }
+            }
+            Focus::C20 => {
+                for f in &adm {
+                    if let Some(s) = &f.sig20 {
+                        report.violation(format!("{pre}{s}"), f.detail.clone(), replay(&h));
+                    }
+                }
+            }
+            _ => {}
+        }
+        if !adm.is_empty() && selftest.is_none() {
+            tot.add("histories.cut_after_admission_finding", 1);
+            for f in &adm {
+                tot.add(&format!("admission_finding.{}", f.sig19.replace(' ', "_")), 1);
+            }
+            break;
+        }
+        if !findings.is_empty() && selftest.is_none() {
+            break;
+        }
+    }
+    report.evals(evals);
+    for (k, v) in h.counters.iter().chain(tot.counters.iter()) {
+        report.add(k, *v);
+    }
+    report.add("histories", 1);
+}
 
 fn main() {
     let args = Args::parse();
     install_quiet_panic_hook();
     let report = Report::new(&args.property);
-    match args.property.as_str() {
-        other => report.inconclusive(format!("property {other} not implemented in this monitor")),
+    let Some(focus) = focus_of(&args.property) else {
+        report.inconclusive(format!(
+            "property {} not implemented in this monitor",
+            args.property
+        ));
+        report.finish(&args, "exploration", "", false, &[]);
+        return;
+    };
+    let selftest: Option<u32> = args.extra.get("selftest").and_then(|s| s.parse().ok());
+    let n_ops = args.by_tier(70usize, 110usize);
+    let per_shard: u64 = args
+        .extra
+        .get("histories-per-shard")
+        .and_then(|s| s.parse().ok())
+        .unwrap_or(args.by_tier(300u64, 6000u64));
+    let shards = 64usize;
+
+    if let Some(r) = read_replay(&args) {
+        let seed = r["seed"].as_u64().unwrap_or(0);
+        let iter = r["iteration"].as_u64().unwrap_or(0);
+        let shard = r["shard"].as_u64().unwrap_or(0) as usize;
+        run_history(&report, &args, focus, shard, seed, iter, n_ops, selftest);
+        report.note(format!("replayed history seed {seed} iteration {iter}"));
+    } else {
+        let (r2, a2) = (report.clone(), args.clone());
+        run_shards(&report, &args, shards, move |shard, seed| {
+            for iter in 0..per_shard {
+                run_history(&r2, &a2, focus, shard, seed, iter, n_ops, selftest);
+            }
+        });
+        thresholds(&report, focus, selftest.is_some());
     }
-    report.finish(&args, "exploration", "", false, &[]);
+
+    let rule = match focus {
+        Focus::C16 => "case = one executed operation of a generated history (insert with collisions/dependencies/evictions, extraction, block import, preconfirmation success/failure/squeeze-out current+stale, TTL expiry, pending expiry) on tiny or default pool limits; non-trivial = the operation changed the set of pooled transactions; distinct = hash of (multiset of pooled (kind,tip,gas,#parents,#children), operation shape, result sizes)",
+        Focus::C17 => "case = one executed operation; non-trivial = the pool's derived dependency graph had edges and the operation removed a transaction with dependents without inclusion, extracted a transaction with dependents, or added a dependency edge; distinct as for C16",
+        Focus::C18 => "case = one extraction with generated constraints on a generated pool; non-trivial = at least 2 transactions handed out; distinct = hash of (pool shape, constraints, (tip,gas) list handed out)",
+        Focus::C19 => "case = one submission judged against the snapshot before it, the chain model and the list of handed-out/preconfirmed unsettled transactions; every insert is non-trivial; distinct = hash of (pool shape, submitted tx shape, outcome)",
+        Focus::C20 => "case = one executed operation; non-trivial = block import that commits a pooled tx or omits a preconfirmed tx, a stale preconfirmation, or the resubmission of a rolled-back tx; distinct as for C16",
+        Focus::C21 => "case = one executed operation with the status-sink log recorded during it; non-trivial = at least one transaction left the pool without inclusion; distinct as for C16",
+    };
+    report.finish(
+        &args,
+        "exploration",
+        rule,
+        false,
+        &[
+            "hook H1 (feature verif-hooks) drives the real PoolWorker methods synchronously; the production worker thread is single-threaded, so every behaviour is a sequential order of these operations",
+            "transactions are built with the real TransactionBuilder and into_checked_basic; Metadata::new_test (chosen id/max_gas) and Metadata::new (chosen size/max_gas_price) as in the crate's own stability test",
+            "persistent storage and status manager ports are harness implementations (chain model, recording sink); verification stage (signatures, predicates, fees) is not part of the pool worker and is bypassed",
+            "blocks and preconfirmations offered to the pool are valid on the chain model (parents committed before children); Creates for contracts that already exist are not generated",
+        ],
+    );
+}
+
+fn thresholds(report: &Report, focus: Focus, selftest: bool) {
+    if selftest {
+        report.require("selftest.perturbations_applied", 10);
+        return;
+    }
+    report.require("histories", 500);
+    report.require("ops.insert", 20_000);
+    report.require("ops.extract", 2_000);
+    report.require("ops.block", 1_500);
+    report.require("ops.preconf", 500);
+    report.require("ops.preconf_squeezed", 200);
+    report.require("ops.expire", 500);
+    report.require("insert.outcome.inserted", 8_000);
+    report.require("steps.nontrivial", 2_000);
+    match focus {
+        Focus::C16 => {
+            report.require("insert.admitted_over_collision", 300);
+            report.require("insert.admitted_with_space_eviction", 100);
+            report.require("pool.full_snapshots", 1_000);
+        }
+        Focus::C17 => {
+            report.require("pool.snapshots_with_dependencies", 10_000);
+            report.require("insert.admitted_with_pool_parent", 2_000);
+            report.require("insert.rejected.Dependency.NotInsertedChainDependencyTooBig", 50);
+            report.require("insert.rejected.Dependency.DependentTransactionIsADiamondDeath", 20);
+        }
+        Focus::C18 => {
+            report.require("extract.with_2plus_txs", 1_500);
+            report.require("extract.gas_limit_binding", 500);
+            report.require("extract.size_limit_binding", 200);
+            report.require("extract.count_limit_binding", 200);
+            report.require("extract.min_price_binding", 200);
+            report.require("extract.excluded_contract_binding", 30);
+            report.require("extract.with_dependent_tx", 300);
+        }
+        Focus::C19 => {
+            report.require("insert.plain_case", 3_000);
+            report.require("insert.admitted_over_collision", 300);
+            report.require("insert.rejected.Collided.Utxo", 300);
+            report.require("insert.rejected.InputValidation.DuplicateTxId", 500);
+            report.require("insert.rejected.UtxoInputWasAlreadySpent", 300);
+            report.require("insert.outcome.pending", 500);
+            report.require("insert.admitted_spending_unsettled_output", 100);
+        }
+        Focus::C20 => {
+            report.require("block.commits_pooled_tx", 200);
+            report.require("block.commits_handed_out_tx", 1_000);
+            report.require("block.rolls_back_preconfirmed_tx", 300);
+            report.require("block.confirms_preconfirmed_tx", 300);
+            report.require("ops.preconf_stale", 500);
+            report.require("probe.rolled_back_resubmission.accepted", 50);
+            report.require("probe.spend_withdrawn_output.not_accepted", 50);
+            report.require("probe.spend_committed_input.not_accepted", 200);
+        }
+        Focus::C21 => {
+            report.require("sink.squeezed_out", 3_000);
+            report.require("exits.inclusion", 3_000);
+            report.require("exits.non_inclusion.insert", 500);
+            report.require("exits.non_inclusion.expire", 300);
+            report.require("exits.non_inclusion.preconf_squeezed", 100);
+        }
+    }
 }
